@@ -123,6 +123,26 @@ pub fn run(r: &mut Report) {
         }
         r.case("pattern-grammar", json!({"inputs": n}), "every construct of the pattern grammar is honoured; an uninterpretable DISALLOW pattern fails verification", format!("{:?}", bad), bad.is_empty());
     }
+    // a MATCH rule compares the digest recorded on ITS side of the link: the same path recorded as material and as product with
+    // every combination of digests against the source step's product / material of that name
+    {
+        let mut bad: Vec<String> = vec![]; let mut n = 0;
+        for m in [1u8, 2] { for p in [1u8, 2] { for a in [1u8, 2] { for with in [Artifact::Products, Artifact::Materials] { for side in ["materials", "products"] {
+            n += 1;
+            let owner = key(1); let ka = key(2); let kb = key(3);
+            let d = tmpdir();
+            let la = if matches!(with, Artifact::Products) { link("a", &[("x", 9)], &[("x", a)]) } else { link("a", &[("x", a)], &[("x", 9)]) };
+            write_link(d.path(), "a", ka.key_id(), &signed_link(&la, &[&ka]));
+            write_link(d.path(), "b", kb.key_id(), &signed_link(&link("b", &[("x", m)], &[("x", p)]), &[&kb]));
+            let rules = vec![mtch("x", None, with.clone(), None, "a"), dis()];
+            let sb = if side == "materials" { step("b", 1, &[&kb], rules, allow_all()) } else { step("b", 1, &[&kb], allow_all(), rules) };
+            let lay = signed_layout(&layout(vec![step("a", 1, &[&ka], allow_all(), allow_all()), sb], vec![], &[&ka, &kb], 30), &[&owner]);
+            let res = no_panic(|| in_toto_verify(&lay, owner_keys(&[&owner]), d.path().to_str().unwrap(), None)).map(|r| r.is_ok());
+            let expect = if side == "materials" { m == a } else { p == a };
+            if res != Ok(expect) && bad.len() < 8 { bad.push(format!("b records x as material {} and product {}; a's {:?} x is {}; MATCH in expected_{}: {:?}, expected {}", m, p, with, a, side, res, expect)); }
+        } } } } }
+        r.case("match-compares-the-digest-of-its-own-side", json!({"inputs": n}), "Ok exactly when the digest on the rule's side equals the source step's", format!("{:?}", bad), bad.is_empty());
+    }
     multi_alg(r, 1, "match-multi-algorithm");
     multi_alg_states(r, 4, "two-algorithm-artifact-states");
     state_matrix(r);
